@@ -592,7 +592,7 @@ func (x *Exec) applyContract(st *State, fr *Frame, fc *FuncContract, key string,
 		}
 		vars[fmt.Sprintf("arg%d", i)] = a
 	}
-	if strings.Contains(key, "->") {
+	if strings.Contains(key, "->") || strings.HasPrefix(key, x.key+".") { // caller-specific contract (also of a function-valued field / parameter)
 		for n, v := range x.params {
 			if _, taken := vars[n]; !taken {
 				vars[n] = v
